@@ -41,6 +41,9 @@ def build_jobs(tier, seed, kf_on):
             for bname, side in backends:
                 jobs.append(simple.tv_job(f"{label}:{bname}@{rows}", schema, rows, side, ref, kf_on, tier, max_paths=4000 if tier == "quick" else 40000,
                                           wall_s=60 if tier == "quick" else 600, validate=(0 if bname.startswith("postgresql") else 1)))
+            # the Polars executor (it may raise; where it returns it must return the standard join)
+            jobs.append(simple.tv_job(f"{label}:polars@{rows}", schema, rows, ref, {"kind": "polars", "src": src, "lazy": False}, kf_on, tier, b_may_raise=True,
+                                      max_paths=4000 if tier == "quick" else 40000, wall_s=60 if tier == "quick" else 600))
     return jobs
 
 
@@ -55,7 +58,7 @@ def run(tier):
          "bounds": {"rows_per_table": "0..2 quick / 0..3 thorough", "join_types": JOINTYPES + ["cross"], "key_specs": [s[0] for s in SPECS]}},
         ["models of pandas/SQLite as in C01; PostgreSQL semantics are a model only (no server): its counterexamples are replayed on SQLite >= 3.39 as stand-in engine (native RIGHT/FULL JOIN)",
          "values are mathematical integers/reals; keys int, values real; string keys are exercised in C15/C14 only",
-         "the Polars executor's joins are decided in C03 (same reference via Pandas agreement)"])
+         "the Polars executor (over the polars stand-in) is compared with the same reference wherever it returns; raising is allowed"])
 
 
 def replay(path):
